@@ -80,6 +80,27 @@ class Ref:
         return hash(('ref', self.oid))
 
 
+class LazyUnion:
+    """a field of a symbolic entry object whose type is a union / optional: resolved (by forking) on first read.
+    alts: list of (type text, value | ABSENT)"""
+    __slots__ = ('alts', 'name')
+
+    def __init__(self, alts, name):
+        self.alts = alts
+        self.name = name
+
+    def __repr__(self):
+        return 'LazyUnion(%s)' % ','.join(str(a[0]) for a in self.alts)
+
+
+class _Absent:
+    def __repr__(self):
+        return '<absent>'
+
+
+ABSENT = _Absent()
+
+
 class FuncV:
     def __init__(self, info):
         self.info = info            # loader.FuncInfo
